@@ -78,3 +78,10 @@ CHECKS["C01"] = dict(
     design_ref="DESIGN.md 3 C01",
     note="\\b modelled by a marker literal (sound for inclusion, models replayed on Wtp.parse); placement rules, argument shapes and other raise sites are outside.",
 )
+CHECKS["C13"] = dict(
+    engine="E1 CrossHair; E3 AST path encoder + z3",
+    technique="CrossHair on check_template_need_expand with symbolic selection sets and on the AST-sliced expand_parserfn; z3 path queries over the hook call sites of the expander's cookie loop",
+    text="The selection rule equals 'existing, not excluded and (selected or flagged)' on every combination of set None-ness/membership; the parser-function switches re-emit the call text for symbolic arguments with a balanced path; on every syntactic path of one template call the hooks run at most once, a used template_fn result bypasses the body lookup, and an unselected call is re-emitted exactly once without hooks.",
+    design_ref="DESIGN.md 3 C13",
+    note="Whole-page 'text comes back unchanged' and the hooks' argument map are outside (C14 covers the map); path conditions are uninterpreted, violating paths are replayed with recording hooks.",
+)
